@@ -6,9 +6,9 @@ package provider
 
 // "the validator accepts c under allowlist al" (right-hand side of verifcid.ValidateCid's contract)
 //@ macro validKey(al, c) = alAllowed(al, cidPrefix(c).MhType) && alMin(al, cidPrefix(c).MhType) <= cidPrefix(c).MhLength && cidPrefix(c).MhLength <= alMax(al, cidPrefix(c).MhType)
-//@ spec cidHashP(c cid.Cid) multihash.Multihash
+//@ spec cidHash(c cid.Cid) multihash.Multihash
 //@ func ext (github.com/ipfs/go-cid.Cid).Hash
-//@   ensures result == cidHashP(c)
+//@   ensures result == cidHash(c)
 //@ func doProvideMany
 //@   assumed
 //@ func (*reprovider).waitUntilProvideSystemReady
@@ -26,5 +26,5 @@ package provider
 //@   modifies all
 //@   dyn calldyn noeffect
 //@   loop 0 invariant[each_round_reads_keys] batchSize >= 1
-//@   site[announce_only_allowed] builtin:append : validKey(s.allowlist, c) && len(arg1) == 1 && arg1[0] == cidHashP(c)
+//@   site[announce_only_allowed] builtin:append : validKey(s.allowlist, c) && len(arg1) == 1 && arg1[0] == cidHash(c)
 //@   site[non_empty_batches] call:doProvideMany : len(arg2) > 0
